@@ -18,12 +18,12 @@ theorem getD_bookAdd_other (b : Book) (k k2 : String) (x : Int) (h : k2 ≠ k) :
   unfold bookAdd; rw [getD_set_other _ _ _ _ _ h]
 
 /-- the staker loop moves amounts from `remaining` to the staker book, one for one -/
-theorem stakerLoop_sum (pm : Book) (total R : Int) :
-    ∀ (occ : List (String × Int)) (rw : Book) (rem : Int) (rw' : Book) (rem' : Int),
-      stakerLoop pm total R occ rw rem = some (rw', rem') →
+theorem stakerLoop_sum (total R : Int) :
+    ∀ (l : List (String × Int)) (rw : Book) (rem : Int) (rw' : Book) (rem' : Int),
+      stakerLoop total R l rw rem = some (rw', rem') →
       bookSum rw' + rem' = bookSum rw + rem ∧ (0 ≤ rem → 0 ≤ rem') := by
-  intro occ
-  induction occ with
+  intro l
+  induction l with
   | nil =>
     intro rw rem rw' rem' h
     simp only [stakerLoop, Option.some.injEq, Prod.mk.injEq] at h
@@ -39,11 +39,10 @@ theorem stakerLoop_sum (pm : Book) (total R : Int) :
       rw [bookSum_bookAdd] at h1
       exact ⟨by omega, fun _ => h2 (by omega)⟩
 
-/-- AllocateTokensToStakers as it is: the community pool receives ALL of `R`, and the staker book
-receives `R - rem` on top of that. -/
+/-- AllocateTokensToStakers: community pool + staker book grow by exactly `R` -/
 theorem allocStakers_spec (rw : Book) (c : Int) (occ : List (String × Int)) (R : Int) (rw' : Book) (c' : Int)
     (h : allocStakers rw c occ R = some (rw', c')) :
-    c' = c + R ∧ ∃ rem, bookSum rw' + rem = bookSum rw + R ∧ (0 ≤ R → 0 ≤ rem) := by
+    c' + bookSum rw' = c + bookSum rw + R ∧ (0 ≤ R → c ≤ c') := by
   unfold allocStakers at h
   simp only [] at h
   split at h
@@ -52,42 +51,22 @@ theorem allocStakers_spec (rw : Book) (c : Int) (occ : List (String × Int)) (R 
     · rename_i rw2 rem2 heq
       simp only [Option.some.injEq, Prod.mk.injEq] at h
       obtain ⟨h1, h2⟩ := h; subst h1; subst h2
-      obtain ⟨e1, e2⟩ := stakerLoop_sum _ _ _ _ _ _ _ _ heq
-      exact ⟨rfl, rem2, e1, e2⟩
+      obtain ⟨e1, e2⟩ := stakerLoop_sum _ _ _ _ _ _ _ heq
+      exact ⟨by omega, fun hR => by have := e2 hR; omega⟩
   · simp only [Option.some.injEq, Prod.mk.injEq] at h
     obtain ⟨h1, h2⟩ := h; subst h1; subst h2
-    exact ⟨rfl, R, rfl, fun h => h⟩
-
-/-- the repaired variant books `remaining` -/
-theorem allocStakersFixed_spec (rw : Book) (c : Int) (occ : List (String × Int)) (R : Int) (rw' : Book) (c' : Int)
-    (h : allocStakersFixed rw c occ R = some (rw', c')) :
-    c' + bookSum rw' = c + bookSum rw + R := by
-  unfold allocStakersFixed at h
-  simp only [] at h
-  split at h
-  · split at h
-    · cases h
-    · rename_i rw2 rem2 heq
-      simp only [Option.some.injEq, Prod.mk.injEq] at h
-      obtain ⟨h1, h2⟩ := h; subst h1; subst h2
-      obtain ⟨e1, _⟩ := stakerLoop_sum _ _ _ _ _ _ _ _ heq
-      omega
-  · simp only [Option.some.injEq, Prod.mk.injEq] at h
-    obtain ⟨h1, h2⟩ := h; subst h1; subst h2
-    omega
+    exact ⟨by omega, fun hR => by omega⟩
 
 /-- community + commissions, the part of the claims that is not staker rewards -/
 def nonStaker (p : Pool) : Int := p.community + bookSum p.commission
 
-/-- AllocateTokensToValidator as it is -/
+/-- AllocateTokensToValidator: the claims grow by exactly the validator's portion -/
 theorem allocValidator_spec (p : Pool) (v : ValIn) (tokens : Int) (p' : Pool)
     (h : allocValidator p v tokens = some p') :
-    nonStaker p' = nonStaker p + tokens ∧
+    claims p' = claims p + tokens ∧
     bookSum p'.outstanding = bookSum p.outstanding + tokens ∧
     getD p'.outstanding v.op 0 = getD p.outstanding v.op 0 + tokens ∧
-    getD p'.commission v.op 0 = getD p.commission v.op 0 + (Dec.mul ⟨tokens⟩ ⟨v.rate⟩).raw ∧
-    (∃ rem, bookSum p'.rewards + rem = bookSum p.rewards + (tokens - (Dec.mul ⟨tokens⟩ ⟨v.rate⟩).raw) ∧
-            (0 ≤ tokens - (Dec.mul ⟨tokens⟩ ⟨v.rate⟩).raw → 0 ≤ rem)) := by
+    getD p'.commission v.op 0 = getD p.commission v.op 0 + (Dec.mul ⟨tokens⟩ ⟨v.rate⟩).raw := by
   unfold allocValidator allocValidatorWith at h
   simp only [] at h
   split at h
@@ -97,34 +76,19 @@ theorem allocValidator_spec (p : Pool) (v : ValIn) (tokens : Int) (p' : Pool)
     · rename_i rw comm heq
       simp only [Option.some.injEq] at h
       subst h
-      obtain ⟨e1, rem, e2, e3⟩ := allocStakers_spec _ _ _ _ _ _ heq
-      refine ⟨?_, ?_, ?_, ?_, rem, e2, e3⟩
-      · simp only [nonStaker, bookSum_bookAdd, e1]; omega
+      obtain ⟨e1, _⟩ := allocStakers_spec _ _ _ _ _ _ heq
+      refine ⟨?_, ?_, ?_, ?_⟩
+      · simp only [claims, bookSum_bookAdd]; omega
       · simp only [bookSum_bookAdd]
       · simp only [getD_bookAdd_same]
       · simp only [getD_bookAdd_same]
 
-theorem allocValidatorFixed_spec (p : Pool) (v : ValIn) (tokens : Int) (p' : Pool)
-    (h : allocValidatorWith allocStakersFixed p v tokens = some p') :
-    claims p' = claims p + tokens := by
-  unfold allocValidatorWith at h
-  simp only [] at h
-  split at h
-  · cases h
-  · split at h
-    · cases h
-    · rename_i rw comm heq
-      simp only [Option.some.injEq] at h
-      subst h
-      have e := allocStakersFixed_spec _ _ _ _ _ _ heq
-      simp only [claims, bookSum_bookAdd]; omega
-
-/-- the validator loop: `nonStaker + remaining` is constant; the outstanding book grows by what
+/-- the validator loop: `claims + remaining` is constant; the outstanding book grows by what
 left `remaining` -/
 theorem valLoop_spec (fm total : Int) :
     ∀ (vals : List ValIn) (p : Pool) (rem : Int) (p' : Pool) (rem' : Int),
       valLoop fm total vals p rem = some (p', rem') →
-      nonStaker p' + rem' = nonStaker p + rem ∧
+      claims p' + rem' = claims p + rem ∧
       bookSum p'.outstanding + rem' = bookSum p.outstanding + rem ∧ (0 ≤ rem → 0 ≤ rem') := by
   intro vals
   induction vals with
@@ -146,30 +110,6 @@ theorem valLoop_spec (fm total : Int) :
           obtain ⟨i1, i2, i3⟩ := ih _ _ _ _ h
           exact ⟨by omega, by omega, fun _ => i3 (by omega)⟩
 
-theorem valLoopFixed_spec (fm total : Int) :
-    ∀ (vals : List ValIn) (p : Pool) (rem : Int) (p' : Pool) (rem' : Int),
-      valLoopWith allocStakersFixed fm total vals p rem = some (p', rem') →
-      claims p' + rem' = claims p + rem := by
-  intro vals
-  induction vals with
-  | nil =>
-    intro p rem p' rem' h
-    simp only [valLoopWith, Option.some.injEq, Prod.mk.injEq] at h
-    obtain ⟨h1, h2⟩ := h; subst h1; subst h2; rfl
-  | cons v rest ih =>
-    intro p rem p' rem' h
-    simp only [valLoopWith] at h
-    split at h
-    · exact ih _ _ _ _ h
-    · split at h
-      · cases h
-      · rename_i p1 heq
-        split at h
-        · cases h
-        · have e1 := allocValidatorFixed_spec _ _ _ _ heq
-          have i1 := ih _ _ _ _ h
-          omega
-
 /-- the mint hook never touches the claims or the distribution account -/
 theorem mintHook_pool (s : St) (r : Int) : (mintHook s r).pool = s.pool ∧ (mintHook s r).distr = s.distr := by
   unfold mintHook; split <;> exact ⟨rfl, rfl⟩
@@ -184,5 +124,308 @@ theorem mintHook_accounts (s : St) (r : Int) :
   unfold mintHook; split
   · rename_i h; simp at h; subst h; simp
   · simp
+
+
+/-! ## arithmetic of the truncated shares -/
+
+/-- ⌊R·⌊⌊p·P²/T⌋/P⌋/P⌋ · T ≤ R·p -/
+theorem frac_chain (P R p T : Int) (hP : 0 < P) (hR : 0 ≤ R) (hT : 0 < T) :
+    (R * ((p * (P * P)) / T / P)) / P * T ≤ R * p := by
+  have hx := Int.ediv_mul_le (p * (P * P)) (Int.ne_of_gt hT)
+  have hq := Int.ediv_mul_le ((p * (P * P)) / T) (Int.ne_of_gt hP)
+  have hr := Int.ediv_mul_le (R * ((p * (P * P)) / T / P)) (Int.ne_of_gt hP)
+  generalize (p * (P * P)) / T = x at *
+  generalize x / P = q at *
+  generalize (R * q) / P = r at *
+  have h1 : q * T ≤ p * P := by
+    have a : q * P * T ≤ p * (P * P) := Int.le_trans (Int.mul_le_mul_of_nonneg_right hq (Int.le_of_lt hT)) hx
+    have e1 : q * P * T = (q * T) * P := by simp only [Int.mul_assoc, Int.mul_comm, Int.mul_left_comm]
+    have e2 : p * (P * P) = (p * P) * P := by simp only [Int.mul_assoc]
+    rw [e1, e2] at a
+    exact Int.le_of_mul_le_mul_right a hP
+  have h3 : r * T * P ≤ R * p * P := by
+    have a : r * P * T ≤ R * q * T := Int.mul_le_mul_of_nonneg_right hr (Int.le_of_lt hT)
+    have b : R * (q * T) ≤ R * (p * P) := Int.mul_le_mul_of_nonneg_left h1 hR
+    have e1 : r * T * P = r * P * T := by simp only [Int.mul_assoc, Int.mul_comm, Int.mul_left_comm]
+    have e2 : R * q * T = R * (q * T) := by simp only [Int.mul_assoc]
+    have e3 : R * p * P = R * (p * P) := by simp only [Int.mul_assoc]
+    rw [e1, e3]; rw [e2] at a; exact Int.le_trans a b
+  exact Int.le_of_mul_le_mul_right h3 hP
+
+/-- R·p < (⌊R·⌊⌊p·P²/T⌋/P⌋/P⌋ + 1)·T + R·T/P, stated without division:
+    R·p·P < (r·P + P + R)·T  — the truncated share is within one unit plus R/P of the exact one -/
+theorem frac_chain_lower (P R p T : Int) (hP : 0 < P) (hR : 0 ≤ R) (hT : 0 < T) :
+    R * p * P < ((R * ((p * (P * P)) / T / P)) / P * P + P + R) * T := by
+  have hx := Int.lt_ediv_add_one_mul_self (p * (P * P)) hT
+  have hq := Int.lt_ediv_add_one_mul_self ((p * (P * P)) / T) hP
+  have hr := Int.lt_ediv_add_one_mul_self (R * ((p * (P * P)) / T / P)) hP
+  generalize (p * (P * P)) / T = x at *
+  generalize x / P = q at *
+  generalize (R * q) / P = r at *
+  -- p·P < (q+1)·T
+  have h1 : p * P < (q + 1) * T := by
+    have a : x + 1 ≤ (q + 1) * P := hq
+    have b : (x + 1) * T ≤ (q + 1) * P * T := Int.mul_le_mul_of_nonneg_right a (Int.le_of_lt hT)
+    have c : p * (P * P) < (q + 1) * P * T := Int.lt_of_lt_of_le hx b
+    have e1 : p * (P * P) = (p * P) * P := by simp only [Int.mul_assoc]
+    have e2 : (q + 1) * P * T = ((q + 1) * T) * P := by simp only [Int.mul_assoc, Int.mul_comm, Int.mul_left_comm]
+    rw [e1, e2] at c
+    exact Int.lt_of_mul_lt_mul_right c (Int.le_of_lt hP)
+  -- R·p·P ≤ R·(q+1)·T = (R·q + R)·T < ((r+1)·P + R)·T
+  have h2 : R * (p * P) ≤ R * ((q + 1) * T) := Int.mul_le_mul_of_nonneg_left (Int.le_of_lt h1) hR
+  have h3 : (R * q + R) * T < ((r + 1) * P + R) * T :=
+    Int.mul_lt_mul_of_pos_right (by omega) hT
+  have e1 : R * p * P = R * (p * P) := by simp only [Int.mul_assoc]
+  have e2 : R * ((q + 1) * T) = (R * q + R) * T := by rw [← Int.mul_assoc, Int.mul_add, Int.mul_one]
+  have e3 : (r * P + P + R) = ((r + 1) * P + R) := by rw [Int.add_mul, Int.one_mul]
+  rw [e1, e3]; rw [e2] at h2
+  exact Int.lt_of_le_of_lt h2 h3
+
+/-- the share of one staker -/
+def stakerReward (R p total : Int) : Int := (Dec.mulTruncate ⟨R⟩ (Dec.quoTruncate ⟨p⟩ ⟨total⟩)).raw
+
+theorem stakerReward_eq (R p total : Int) (hR : 0 ≤ R) (hp : 0 ≤ p) (ht : 0 < total) :
+    stakerReward R p total = (R * ((p * (PREC * PREC)) / total / PREC)) / PREC := by
+  have hP := PREC_pos
+  have hA : 0 ≤ p * (PREC * PREC) := Int.mul_nonneg hp (Int.le_of_lt (Int.mul_pos hP hP))
+  have hx : 0 ≤ (p * (PREC * PREC)) / total := Int.ediv_nonneg hA (Int.le_of_lt ht)
+  have hq : 0 ≤ (p * (PREC * PREC)) / total / PREC := Int.ediv_nonneg hx (Int.le_of_lt hP)
+  simp only [stakerReward, Dec.mulTruncate, Dec.quoTruncate, Dec.chopTrunc]
+  rw [Int.tdiv_eq_ediv_of_nonneg hA, Int.tdiv_eq_ediv_of_nonneg hx, Int.tdiv_eq_ediv_of_nonneg (Int.mul_nonneg hR hq)]
+
+theorem stakerReward_bounds (R p total : Int) (hR : 0 ≤ R) (hp : 0 ≤ p) (ht : 0 < total) :
+    0 ≤ stakerReward R p total ∧ stakerReward R p total * total ≤ R * p := by
+  have hP := PREC_pos
+  have hA : 0 ≤ p * (PREC * PREC) := Int.mul_nonneg hp (Int.le_of_lt (Int.mul_pos hP hP))
+  have hx : 0 ≤ (p * (PREC * PREC)) / total := Int.ediv_nonneg hA (Int.le_of_lt ht)
+  have hq : 0 ≤ (p * (PREC * PREC)) / total / PREC := Int.ediv_nonneg hx (Int.le_of_lt hP)
+  rw [stakerReward_eq R p total hR hp ht]
+  exact ⟨Int.ediv_nonneg (Int.mul_nonneg hR hq) (Int.le_of_lt hP), frac_chain PREC R p total hP hR ht⟩
+
+/-- valReward is the staker formula on whole-number powers -/
+theorem valReward_eq_stakerReward (fm total power : Int) :
+    valReward fm total power = stakerReward fm (power * PREC) (total * PREC) := rfl
+
+/-! ## no panic -/
+
+def AllNonneg (m : Book) : Prop := ∀ e ∈ m, 0 ≤ e.2
+
+theorem getD_nonneg (m : Book) (k : String) (h : AllNonneg m) : 0 ≤ getD m k 0 := by
+  unfold getD
+  cases hf : find? m k with
+  | none => simp
+  | some v => exact h (k, v) (find?_mem m k v hf)
+
+theorem set_allNonneg (m : Book) (k : String) (v : Int) (h : AllNonneg m) (hv : 0 ≤ v) : AllNonneg (KV.set m k v) := by
+  induction m with
+  | nil => intro e he; simp only [KV.set, List.mem_singleton] at he; subst he; exact hv
+  | cons q rest ih =>
+    obtain ⟨k', v'⟩ := q
+    have hrest : AllNonneg rest := fun e he => h e (by simp [he])
+    by_cases hk : k' = k
+    · intro e he
+      rw [show KV.set ((k', v') :: rest) k v = (k, v) :: rest by simp [KV.set, hk]] at he
+      simp only [List.mem_cons] at he
+      rcases he with he | he
+      · subst he; exact hv
+      · exact hrest e he
+    · intro e he
+      rw [show KV.set ((k', v') :: rest) k v = (k', v') :: KV.set rest k v by simp [KV.set, hk]] at he
+      simp only [List.mem_cons] at he
+      rcases he with he | he
+      · subst he; exact h (k', v') (by simp)
+      · exact ih hrest e he
+
+theorem powerAcc_nonneg : ∀ (occ : List (String × Int)) (m : Book), AllNonneg m → (∀ o ∈ occ, 0 ≤ o.2) →
+    AllNonneg (powerAcc occ m) := by
+  intro occ
+  induction occ with
+  | nil => intro m hm _; exact hm
+  | cons o rest ih =>
+    intro m hm ho
+    obtain ⟨s, p⟩ := o
+    simp only [powerAcc]
+    apply ih
+    · unfold bookAdd
+      exact set_allNonneg m s _ hm (by have := getD_nonneg m s hm; have := ho (s, p) (by simp); simp at this; omega)
+    · intro o' ho'; exact ho o' (by simp [ho'])
+
+theorem powerAcc_sum : ∀ (occ : List (String × Int)) (m : Book), bookSum (powerAcc occ m) = bookSum m + occTotal occ := by
+  intro occ
+  induction occ with
+  | nil => intro m; simp [powerAcc, occTotal]
+  | cons o rest ih =>
+    intro m
+    obtain ⟨s, p⟩ := o
+    simp only [powerAcc, occTotal, ih, bookSum_bookAdd]; omega
+
+theorem bookSum_cons (k : String) (v : Int) (rest : Book) : bookSum ((k, v) :: rest) = v + bookSum rest := rfl
+
+theorem bookSum_nonneg (m : Book) (h : AllNonneg m) : 0 ≤ bookSum m :=
+  sumBy_nonneg (fun x => x) m h
+
+/-- the pay-out loop cannot overdraw `remaining`: R·(powers still to pay) ≤ remaining·total is
+an invariant -/
+theorem stakerLoop_some (total R : Int) (hR : 0 ≤ R) (ht : 0 < total) :
+    ∀ (l : List (String × Int)) (rw : Book) (rem : Int), AllNonneg l → R * bookSum l ≤ rem * total →
+      (stakerLoop total R l rw rem).isSome = true := by
+  intro l
+  induction l with
+  | nil => intro rw rem _ _; simp [stakerLoop]
+  | cons o rest ih =>
+    intro rw rem hl hinv
+    obtain ⟨s, p⟩ := o
+    have hp : 0 ≤ p := hl (s, p) (by simp)
+    have hrest : AllNonneg rest := fun e he => hl e (by simp [he])
+    obtain ⟨_, hb⟩ := stakerReward_bounds R p total hR hp ht
+    have hsum := bookSum_nonneg rest hrest
+    rw [bookSum_cons, Int.mul_add] at hinv
+    have hnew : R * bookSum rest ≤ (rem - stakerReward R p total) * total := by
+      rw [Int.sub_mul]; omega
+    have hge : 0 ≤ rem - stakerReward R p total := by
+      have h0 : 0 * total ≤ (rem - stakerReward R p total) * total := by
+        have := Int.mul_nonneg hR hsum; omega
+      exact Int.le_of_mul_le_mul_right h0 ht
+    simp only [stakerLoop]
+    have : ¬ (rem - (Dec.mulTruncate ⟨R⟩ (Dec.quoTruncate ⟨p⟩ ⟨total⟩)).raw < 0) := by
+      have e : (Dec.mulTruncate ⟨R⟩ (Dec.quoTruncate ⟨p⟩ ⟨total⟩)).raw = stakerReward R p total := rfl
+      rw [e]; omega
+    rw [if_neg this]
+    exact ih _ _ hrest hnew
+
+theorem allocStakers_some (rw : Book) (c : Int) (occ : List (String × Int)) (R : Int) (hR : 0 ≤ R)
+    (ho : ∀ o ∈ occ, 0 ≤ o.2) : (allocStakers rw c occ R).isSome = true := by
+  unfold allocStakers
+  simp only []
+  split
+  · rename_i ht
+    have hnn := powerAcc_nonneg occ [] (fun e he => by simp at he) ho
+    have hs : bookSum (powerAcc occ []) = occTotal occ := by
+      rw [powerAcc_sum]; simp [bookSum, sumBy]
+    have h := stakerLoop_some (occTotal occ) R hR ht (powerAcc occ []) rw R hnn (by rw [hs]; exact Int.le_refl _)
+    cases hh : stakerLoop (occTotal occ) R (powerAcc occ []) rw R with
+    | none => rw [hh] at h; simp at h
+    | some x => rfl
+  · rfl
+
+/-- round(tokens × rate) ≤ tokens for a rate in [0,1] -/
+theorem commission_le (tokens rate : Int) (ht : 0 ≤ tokens) (hr0 : 0 ≤ rate) (hr1 : rate ≤ PREC) :
+    (Dec.mul ⟨tokens⟩ ⟨rate⟩).raw ≤ tokens := by
+  have hd0 : 0 ≤ tokens * rate := Int.mul_nonneg ht hr0
+  have hd1 : tokens * rate ≤ tokens * PREC := Int.mul_le_mul_of_nonneg_left hr1 ht
+  simp only [Dec.mul]
+  generalize tokens * rate = d at *
+  have hP : PREC = 1000000000000000000 := rfl
+  rw [hP] at hd1
+  unfold Dec.chopRound Dec.chopRoundNonneg
+  rw [if_neg (by omega)]
+  simp only [hP]
+  rw [Int.tdiv_eq_ediv_of_nonneg hd0, Int.tmod_eq_emod_of_nonneg hd0]
+  split
+  · omega
+  · split
+    · omega
+    · split
+      · omega
+      · split <;> omega
+
+/-- validator portion: non-negative, at most the exact proportional share, and short of it by
+less than one raw unit plus fm/10^18 -/
+theorem valReward_bounds (fm total power : Int) (hfm : 0 ≤ fm) (hp : 0 ≤ power) (ht : 0 < total) :
+    0 ≤ valReward fm total power ∧ valReward fm total power * total ≤ fm * power ∧
+    fm * power * PREC < (valReward fm total power * PREC + PREC + fm) * total := by
+  have hP := PREC_pos
+  have hpP : 0 ≤ power * PREC := Int.mul_nonneg hp (Int.le_of_lt hP)
+  have htP : 0 < total * PREC := Int.mul_pos ht hP
+  rw [valReward_eq_stakerReward]
+  obtain ⟨b0, b1⟩ := stakerReward_bounds fm (power * PREC) (total * PREC) hfm hpP htP
+  have low := frac_chain_lower PREC fm (power * PREC) (total * PREC) hP hfm htP
+  rw [← stakerReward_eq fm (power * PREC) (total * PREC) hfm hpP htP] at low
+  generalize stakerReward fm (power * PREC) (total * PREC) = r at *
+  refine ⟨b0, ?_, ?_⟩
+  · have e1 : r * (total * PREC) = (r * total) * PREC := by simp only [Int.mul_assoc]
+    have e2 : fm * (power * PREC) = (fm * power) * PREC := by simp only [Int.mul_assoc]
+    rw [e1, e2] at b1
+    exact Int.le_of_mul_le_mul_right b1 hP
+  · have e1 : fm * (power * PREC) * PREC = (fm * power * PREC) * PREC := by simp only [Int.mul_assoc]
+    have e2 : (r * PREC + PREC + fm) * (total * PREC) = ((r * PREC + PREC + fm) * total) * PREC := by
+      simp only [Int.mul_assoc]
+    rw [e1, e2] at low
+    exact Int.lt_of_mul_lt_mul_right low (Int.le_of_lt hP)
+
+theorem allocValidator_some (p : Pool) (v : ValIn) (tokens : Int) (ht : 0 ≤ tokens)
+    (hr0 : 0 ≤ v.rate) (hr1 : v.rate ≤ PREC) (ho : ∀ o ∈ v.stakers, 0 ≤ o.2) :
+    (allocValidator p v tokens).isSome = true := by
+  unfold allocValidator allocValidatorWith
+  simp only []
+  have hc := commission_le tokens v.rate ht hr0 hr1
+  rw [if_neg (by omega)]
+  have h := allocStakers_some p.rewards p.community v.stakers (tokens - (Dec.mul ⟨tokens⟩ ⟨v.rate⟩).raw) (by omega) ho
+  cases hh : allocStakers p.rewards p.community v.stakers (tokens - (Dec.mul ⟨tokens⟩ ⟨v.rate⟩).raw) with
+  | none => rw [hh] at h; simp at h
+  | some x => rfl
+
+/-- Σ power over the validators that are found -/
+def foundPower : List ValIn → Int
+  | [] => 0
+  | v :: rest => (if v.found then v.power else 0) + foundPower rest
+
+def SaneVal (v : ValIn) : Prop :=
+  0 ≤ v.power ∧ 0 ≤ v.rate ∧ v.rate ≤ PREC ∧ ∀ o ∈ v.stakers, 0 ≤ o.2
+
+theorem foundPower_nonneg (vals : List ValIn) (h : ∀ v ∈ vals, SaneVal v) : 0 ≤ foundPower vals := by
+  induction vals with
+  | nil => simp [foundPower]
+  | cons v rest ih =>
+    have := ih (fun x hx => h x (by simp [hx]))
+    have hv := (h v (by simp)).1
+    simp only [foundPower]; split <;> omega
+
+theorem valLoop_some (fm total : Int) (hfm : 0 ≤ fm) (ht : 0 < total) :
+    ∀ (vals : List ValIn) (p : Pool) (rem : Int), (∀ v ∈ vals, SaneVal v) →
+      fm * foundPower vals ≤ rem * total → (valLoop fm total vals p rem).isSome = true := by
+  intro vals
+  induction vals with
+  | nil => intro p rem _ _; simp [valLoop, valLoopWith]
+  | cons v rest ih =>
+    intro p rem hs hinv
+    have hrest : ∀ x ∈ rest, SaneVal x := fun x hx => hs x (by simp [hx])
+    obtain ⟨hp, hr0, hr1, ho⟩ := hs v (by simp)
+    simp only [valLoop, valLoopWith]
+    by_cases hf : v.found = true
+    · simp only [hf, Bool.not_true, Bool.false_eq_true, if_false]
+      obtain ⟨b0, b1, _⟩ := valReward_bounds fm total v.power hfm hp ht
+      have hv := allocValidator_some p v (valReward fm total v.power) b0 hr0 hr1 ho
+      simp only [allocValidator] at hv
+      cases hh : allocValidatorWith allocStakers p v (valReward fm total v.power) with
+      | none => rw [hh] at hv; simp at hv
+      | some p1 =>
+        simp only []
+        simp only [foundPower, hf, if_true, Int.mul_add] at hinv
+        have hfp := foundPower_nonneg rest hrest
+        have hnew : fm * foundPower rest ≤ (rem - valReward fm total v.power) * total := by
+          rw [Int.sub_mul]; omega
+        have hge : 0 ≤ rem - valReward fm total v.power := by
+          have h0 : 0 * total ≤ (rem - valReward fm total v.power) * total := by
+            have := Int.mul_nonneg hfm hfp; omega
+          exact Int.le_of_mul_le_mul_right h0 ht
+        rw [if_neg (by omega)]
+        exact ih p1 _ hrest hnew
+    · have hf' : v.found = false := by cases h : v.found <;> simp_all
+      simp only [hf', Bool.not_false, if_true]
+      simp only [foundPower, hf', Bool.false_eq_true, if_false, Int.zero_add] at hinv
+      exact ih p rem hrest hinv
+
+theorem feeMultiplier_bounds (feesDec tax : Int) (hf : 0 ≤ feesDec) (h0 : 0 ≤ tax) (h1 : tax ≤ PREC) :
+    0 ≤ feeMultiplier feesDec tax ∧ feeMultiplier feesDec tax ≤ feesDec := by
+  have hP := PREC_pos
+  have hm : 0 ≤ feesDec * (PREC - tax) := Int.mul_nonneg hf (by omega)
+  have e : feeMultiplier feesDec tax = (feesDec * (PREC - tax)) / PREC := by
+    simp only [feeMultiplier, Dec.mulTruncate, Dec.sub, Dec.one, Dec.chopTrunc]
+    rw [Int.tdiv_eq_ediv_of_nonneg hm]
+  rw [e]
+  refine ⟨Int.ediv_nonneg hm (Int.le_of_lt hP), ?_⟩
+  apply Int.ediv_le_of_le_mul hP
+  exact Int.mul_le_mul_of_nonneg_left (by omega) hf
 
 end ExoVerif.Distr
